@@ -55,13 +55,25 @@ func (parser *Parser) nextLineBytes() ([]byte, error) {
 	}
 	if err != nil {
 		if errors.Is(err, io.EOF) {
+			// A line has no length prefix, only its CRLF says that it is complete: inside an
+			// array, whose header announced the element, a line cut off by the end of the
+			// stream is not an element (at top level the end of the stream ends the line).
+			if 0 < parser.depth {
+				return nil, fmt.Errorf(errorUnterminatedLine, readBytes.Bytes())
+			}
 			return readBytes.Bytes(), nil
 		}
 		return nil, err
 	}
 
 	// Skips a next line field.
-	parser.reader.Read(readByte)
+	n, err = parser.reader.Read(readByte)
+	if 0 < parser.depth && (n != 1 || readByte[0] != lf) {
+		if err == nil || errors.Is(err, io.EOF) {
+			err = fmt.Errorf(errorUnterminatedLine, readBytes.Bytes())
+		}
+		return nil, err
+	}
 
 	// Returns an empty byte array instead of nil
 	lenBytes := readBytes.Bytes()
